@@ -14,6 +14,14 @@ Theorem C19_callback_once :
 Proof. exact callback_once_gen. Qed.
 Print Assumptions C19_callback_once.
 
+(* the same on any of the four trees (with / without each repair): the defects of the unchanged tree concern the
+   argument types and the output count, not the number of invocations *)
+Theorem C19_callback_once_any_tree :
+  forall f13 f19 o oc tr, construct_gen f13 f19 o = Some (oc, tr) -> (forall e, oc <> OErr e) ->
+    map fst tr = map cb_id (op_callbacks o).
+Proof. exact callback_once_tree. Qed.
+Print Assumptions C19_callback_once_any_tree.
+
 (* counting form: with pairwise distinct callbacks, each one occurs exactly once in the trace *)
 Theorem C19_callback_once_count :
   forall o oc tr c, construct o = Some (oc, tr) -> (forall e, oc <> OErr e) -> NoDup (map cb_id (op_callbacks o)) ->
@@ -67,7 +75,7 @@ Theorem C19_arg_types_prescribed_loop :
 Proof. exact arg_types_loop. Qed.
 Print Assumptions C19_arg_types_prescribed_loop.
 
-(* Scan, for all operand lists, every split m and all scan axes that ONNX admits *)
+(* Scan, for all operand lists, every split m and all scan axes that ONNX allows *)
 Theorem C19_arg_types_prescribed_scan :
   forall tys m axes dirs body p, spec_scan tys m axes = Some p ->
     snd (scan (map Some tys) (Z.of_nat m) axes dirs body) = if callable (cb_beh body) then [(cb_id body, p)] else [].
@@ -109,6 +117,12 @@ Theorem C19_malformed_typeerror_if_then :
     if_ e t = (OErr EType, ((cb_id e, []) :: if callable (cb_beh t) then [(cb_id t, [])] else [])).
 Proof. exact malformed_if_then. Qed.
 Print Assumptions C19_malformed_typeerror_if_then.
+
+(* subgraph(types, f) with a non-Type among the types: TypeError, nothing is called *)
+Theorem C19_subgraph_bad_types :
+  forall mat types f, In None types -> subgraph_gen mat types f = (Err EType, []).
+Proof. exact subgraph_bad_types_in. Qed.
+Print Assumptions C19_subgraph_bad_types.
 
 (* --- the unchanged tree -------------------------------------------------------------------------------------------- *)
 (* F13a: state float32[3], scan input float32[5,3]: the axis is stripped from the FIRST num_scan_inputs operands and
